@@ -1,22 +1,36 @@
 /-
   C09 -- type checking terminates on cyclic graphs and recursive types.
-  Proved here, for ALL graphs, contexts, objects, checks, fix configurations:
+  Proved here, for ALL graphs (cyclic, self-referential), contexts (mutually recursive names), objects,
+  checks, and every configuration of the repair flags with a monotone memo (`trail = false`: the code
+  as it is, `Fix.tree`, and the code at the pinned commit, `Fix.orig`):
+    machine_terminates           the run finishes within the EXPLICIT bound `Term.workBound`
+                                 (Spec/WorkBound.lean) = costA * |objects| * |queued forms of spec nodes|
+                                 + Wc + 5, costA = 1 + (Wo + Wc + 2)(Wc + 3), Wo/Wc = largest fan-out of an
+                                 object / a specification node.  Proof: Lemmas/TypeCheckTerm.lean -- the
+                                 potential  costA * (|pairs| - |examined|) + (cost of the pending stack)
+                                 decreases with every iteration of the get_next_check loop; the invariant
+                                 is that the memo is duplicate-free and, like every pending check, lies in
+                                 the finite universe objects x spec-node forms, which is closed under
+                                 everything the machine queues (components, lookup, reference chasing,
+                                 named-check resolution, allow_indirect, guard/bare split of a disjunction).
+    machine_work_bound           hence the work-loop iteration count (the `verif` hook counter of the real
+                                 check_type, which the model reproduces exactly on every case) is at most
+                                 `workBound`, and every fuel >= workBound gives the same verdict and count
     machine_deterministic        the machine is a function of its inputs (verdict AND step count)
     machine_fuel_independent     once the run finishes within some fuel, every larger fuel gives the same
                                  verdict and the same step count (the fuel is not observable)
     machine_steps_le_fuel        the number of work-loop iterations never exceeds the fuel consumed
     machine_is_a_loop            `run` unfolds to one `step` per unit of fuel: `step` is not recursive
                                  (logical half of "without growing the call stack")
-    machine_terminates_partial   the three facts above packaged: a finished run is stable, and bounded
-  NOT proved (stated, checked at run time on every case by the C09 judge): that fuel
-    bound g ctx o c = 2 + Σ_{(x,d) ∈ objects(g,o) × nodes(ctx,c)} (3 + fanout x d)·(M+3)
-  always suffices -- the full statement is
-    theorem machine_terminates : (checkTypeFuel fx g ctx (bound g ctx o c) o c).1 ≠ .outOfFuel
+  NOT covered: the configuration `trail = true` (the memo-leak repair that is NOT in the tree): restoring
+  the memo on backtracking makes it non-monotone, and the bound above does not hold for it.
   Witnesses (decide on concrete inputs, replayed on the real check_type by corpus/C09):
     selfref_terminates_witness, parent_cycle_terminates_witness
 -/
 import Parsley.Model.TypeCheck
 import Parsley.Spec.Conforms
+import Parsley.Spec.WorkBound
+import Parsley.Lemmas.TypeCheckTerm
 namespace Parsley.C09
 open Parsley Parsley.TC
 
@@ -217,11 +231,32 @@ theorem machine_is_a_loop (fx : Fix) (g : Graph) (ctx : Ctx) (n : Nat) (st : St)
       | .inl st' => run fx g ctx n st'
       | .inr r => r := rfl
 
-theorem machine_terminates_partial (fx : Fix) (g : Graph) (ctx : Ctx) (n : Nat) (o : Obj) (c : Chk)
+/-- a run that finishes is stable under more fuel, and its iteration count is bounded by the fuel -/
+theorem machine_finished_run_stable (fx : Fix) (g : Graph) (ctx : Ctx) (n : Nat) (o : Obj) (c : Chk)
     (h : (checkTypeFuel fx g ctx n o c).1 ≠ .outOfFuel) :
     (∀ m, n ≤ m → checkTypeFuel fx g ctx m o c = checkTypeFuel fx g ctx n o c) ∧
     (checkTypeFuel fx g ctx n o c).2 ≤ n :=
   ⟨fun m hm => machine_fuel_independent fx g ctx n m o c h hm, machine_steps_le_fuel fx g ctx n o c⟩
+
+/-- C09, full strength: for EVERY graph, context, object and specification the machine finishes within
+    the explicit bound `workBound` (in every flag configuration with a monotone memo) -/
+theorem machine_terminates (fx : Fix) (htr : fx.trail = false) (g : Graph) (ctx : Ctx) (o : Obj) (c : Chk) :
+    (checkTypeFuel fx g ctx (Term.workBound fx g ctx o c) o c).1 ≠ .outOfFuel :=
+  Term.checkTypeFuel_terminates fx htr g ctx o c
+
+/-- the code as it is, and the code at the pinned commit -/
+theorem machine_terminates_tree (g : Graph) (ctx : Ctx) (o : Obj) (c : Chk) :
+    (checkTypeFuel Fix.tree g ctx (Term.workBound Fix.tree g ctx o c) o c).1 ≠ .outOfFuel ∧
+    (checkTypeFuel Fix.orig g ctx (Term.workBound Fix.orig g ctx o c) o c).1 ≠ .outOfFuel :=
+  ⟨machine_terminates Fix.tree rfl g ctx o c, machine_terminates Fix.orig rfl g ctx o c⟩
+
+/-- the work-loop iteration count is at most `workBound`, and no larger fuel changes verdict or count -/
+theorem machine_work_bound (fx : Fix) (htr : fx.trail = false) (g : Graph) (ctx : Ctx) (o : Obj) (c : Chk) :
+    (checkTypeFuel fx g ctx (Term.workBound fx g ctx o c) o c).2 ≤ Term.workBound fx g ctx o c ∧
+    ∀ m, Term.workBound fx g ctx o c ≤ m →
+      checkTypeFuel fx g ctx m o c = checkTypeFuel fx g ctx (Term.workBound fx g ctx o c) o c :=
+  ⟨machine_steps_le_fuel fx g ctx _ o c,
+   fun m hm => machine_fuel_independent fx g ctx _ m o c (machine_terminates fx htr g ctx o c) hm⟩
 
 /-! ### witnesses: cyclic inputs terminate (concrete runs; replayed on the real code by corpus/C09) -/
 
@@ -240,7 +275,12 @@ theorem parent_cycle_terminates_witness :
       [((1, 0), .dict (.cons [0x4e] (.ref 2 0) .nil)), ((2, 0), .dict (.cons [0x4e] (.ref 1 0) .nil))]
       [("node", nodeT)] 40 (.ref 1 0) (.named "node")).1 = .accept := by decide
 
--- non-vacuity of machine_terminates_partial: a finished run exists
+-- non-vacuity of machine_finished_run_stable: a finished run exists
 example : (checkTypeFuel Fix.tree [] [] 5 (.int 1) (.prim Attr.dflt .integer)).1 ≠ .outOfFuel := by decide
+
+-- the bound on a concrete cyclic case: two dictionaries pointing at each other, recursive named type
+example : Term.workBound Fix.tree
+    [((1, 0), .dict (.cons [0x4e] (.ref 2 0) .nil)), ((2, 0), .dict (.cons [0x4e] (.ref 1 0) .nil))]
+    [("node", nodeT)] (.ref 1 0) (.named "node") = 2046 := by decide
 
 end Parsley.C09
